@@ -48,6 +48,13 @@ def gen_case(rng, allow=None, n_max=6, deviations=False):
             break
     case = {'config': gen_config(rng), 'seq': seq, 'seg_seed': rng.randrange(1 << 30),
             'seg_mode': rng.choice(['whole', 'bytes', 'random', 'random', 'cut'])}
+    if seq[-1]['classes']['framing'] in ('close', 'length') and rng.random() < 0.15:
+        # the server goes silent in the middle of the last response body: the client gives up after its read timeout, the
+        # exchange is not completed (and must not be archived as if it were)
+        last = seq[-1]
+        lo = last['head_len'] + 1
+        if lo < len(last['wire']):
+            case['stall_last_at'] = rng.randrange(lo, len(last['wire']) + (1 if last['then'] == 'eof' else 0))
     if case['config']['rerun'] and case['config']['max_size'] and not case['config']['appending']:
         case['config']['compress'] = False      # (sizes of gzip members vary with the record ids: file numbering would too)
         case['config']['dedup'] = False
@@ -187,6 +194,9 @@ def run_case(case, keep_dir=None):
                     post_body = bytes(rng.choice(b'abc=&%20') for _ in range(rng.choice([0, 1, 17, 300, 5000, 9000])))
                 responses.append({'pieces': pieces_for(rng, r, case['seg_mode']), 'then': r['then'],
                                   'method': r['method'], 'url': url, 'post_body': post_body})
+                if case.get('stall_last_at') and r is seq[-1] and rnd_index == len(rounds) - 1:
+                    responses[-1]['pieces'] = [r['wire'][:case['stall_last_at']]]
+                    responses[-1]['then'] = 'hang'
                 if visits is not None and i % 2 == 1:
                     # pre-seed a visit so that this response is recorded as a revisit
                     from harness import refwarc
@@ -201,7 +211,8 @@ def run_case(case, keep_dir=None):
                 from wpull.protocol.http.stream import Stream
                 client_kwargs = {'stream_factory': functools.partial(Stream, ignore_length=True)}
             outcomes, peer, net = httpdrive.run_sequence(
-                responses, recorder_setup=lambda client: recorder.listen_to_http_client(client), client_kwargs=client_kwargs)
+                responses, recorder_setup=lambda client: recorder.listen_to_http_client(client), client_kwargs=client_kwargs,
+                read_timeout=0.15 if any(x['then'] == 'hang' for x in responses) else None)
             if case.get('ftp') and rnd_index == len(rounds) - 1:
                 obs['ftp'] = run_ftp_sessions(recorder, case['ftp'])
             recorder.close()
